@@ -271,6 +271,15 @@ func RunOpts(srcDir, dstDir string, rewrite bool) (*Descriptor, error) {
 			continue // did not parse: already copied verbatim
 		}
 		src := srcs[rel]
+		if bytes.Contains(src, []byte("//go:linkname")) || bytes.Contains(src, []byte("//go:nosplit")) || bytes.Contains(src, []byte("//go:systemstack")) {
+			// code that reaches into the runtime (a goroutine pinned to its processor must not be asked to yield): left alone
+			d.Verbatim = append(d.Verbatim, rel+" (go:linkname / go:nosplit: not instrumented)")
+			if err := writeFile(filepath.Join(dstDir, rel), src); err != nil {
+				return nil, err
+			}
+			d.Files++
+			continue
+		}
 		if f.Name.Name == "main" || !reach[filepath.Dir(rel)] || strings.HasSuffix(f.Name.Name, "_test") {
 			// not part of the library as the harness sees it; copy verbatim
 			d.Verbatim = append(d.Verbatim, rel)
